@@ -380,4 +380,74 @@ theorem run_nat (m : Bool) (s : St δ) (rs : List (Rec × Bool)) :
 
 end Sess
 
+-- ====================================================================== one connection
+section Conn
+open TLX.Lemmas.Pipeline TLX.Props.C01Pipeline
+
+variable (H : Crypto.Prims) (P : Cipher.Prims) (ρ : Nat → Nat)
+
+/-- the packet with its tag renamed -/
+def retag (p : Pkt) : Pkt := { p with tag := ρ p.tag }
+
+/-- the conversation object holding the renamed packets -/
+def connRetag (c : Pipeline.Conn) : Pipeline.Conn := { c with pkts := c.pkts.map (retag ρ) }
+
+def recs (l : List (Session.Rec × Bool)) : List (Session.Rec × Bool) := l.map fun x => (Sess.rec ρ x.1, x.2)
+
+theorem reasmPkt_nat (info' : Nat → Pipeline.Info) (server : Endpoint) (R : Reassembly.St × Reassembly.St) (p : Pkt) :
+    reasmPkt info' server (Reasm.st ρ R.1, Reasm.st ρ R.2) (retag ρ p) =
+      (((Reasm.st ρ (reasmPkt (info' ∘ ρ) server R p).1.1, Reasm.st ρ (reasmPkt (info' ∘ ρ) server R p).1.2)),
+        recs ρ (reasmPkt (info' ∘ ρ) server R p).2) := by
+  unfold reasmPkt
+  have hs : ∀ (st0 : Reassembly.St),
+      Reassembly.step { Reasm.st ρ st0 with out := [] } ⟨ρ p.tag, (info' (ρ p.tag)).seq, p.payload⟩ =
+        Reasm.st ρ (Reassembly.step { st0 with out := [] } ⟨p.tag, (info' (ρ p.tag)).seq, p.payload⟩) :=
+    fun st0 => Reasm.stepW_nat ρ (2 ^ 32) { st0 with out := [] } ⟨p.tag, (info' (ρ p.tag)).seq, p.payload⟩
+  simp only [Reasm.st] at hs
+  simp only [retag, Function.comp]
+  by_cases hsrv : (p.src == server) = true
+  · simp only [hsrv, if_true, recs, Reasm.st, hs, List.map_map, Function.comp_def, Sess.rec, Reasm.rec]
+  · simp only [hsrv, Bool.false_eq_true, if_false, recs, Reasm.st, hs, List.map_map, Function.comp_def, Sess.rec, Reasm.rec]
+
+theorem released_nat (info' : Nat → Pipeline.Info) (server : Endpoint) (pkts : List Pkt) :
+    ∀ R : Reassembly.St × Reassembly.St,
+      released info' server (Reasm.st ρ R.1, Reasm.st ρ R.2) (pkts.map (retag ρ)) =
+        recs ρ (released (info' ∘ ρ) server R pkts) := by
+  induction pkts with
+  | nil => intro R; rfl
+  | cons p ps ih =>
+    intro R
+    simp only [List.map_cons, released, reasmPkt_nat, ih, recs, List.map_append]
+
+theorem connRecs_nat (info' : Nat → Pipeline.Info) (c : Pipeline.Conn) :
+    connRecs info' (connRetag ρ c) = recs ρ (connRecs (info' ∘ ρ) c) :=
+  released_nat ρ info' c.server c.pkts (Reassembly.St.init, Reassembly.St.init)
+
+/-- **One conversation.** `Session.decrypt()` on the conversation holding the retagged packets, reading the table
+    `info'`, returns what it returns on the original packets reading `info' ∘ ρ` — for ANY `ρ`. -/
+theorem connOut_nat (info' : Nat → Pipeline.Info) (c : Pipeline.Conn) (kl : List Keylog.Key) :
+    Pipeline.connOut H P info' (connRetag ρ c) kl = Pipeline.connOut H P (info' ∘ ρ) c kl := by
+  rw [connOut_eq, connOut_eq, connRecs_nat]
+  have hrun := Sess.run_nat ρ (Pipeline.ops H P kl) (fun _ _ _ => rfl) c.opts.metadata Session.St.init
+    (connRecs (info' ∘ ρ) c)
+  have hinit : Sess.st ρ (Session.St.init : Session.St RecordLayer.Dec) = Session.St.init := rfl
+  rw [hinit] at hrun
+  have hopts : (connRetag ρ c).opts = c.opts := rfl
+  rw [hopts]
+  unfold recs
+  rw [hrun]
+  have ht : (Sess.st ρ (Session.run (Pipeline.ops H P kl) c.opts.metadata Session.St.init (connRecs (info' ∘ ρ) c))).traffic.map
+        (toRec fun id => (info' id).ts) =
+      (Session.run (Pipeline.ops H P kl) c.opts.metadata Session.St.init (connRecs (info' ∘ ρ) c)).traffic.map
+        (toRec fun id => ((info' ∘ ρ) id).ts) := by
+    simp only [Sess.st, List.map_map]
+    apply List.map_congr_left
+    intro e _
+    simp only [Function.comp, toRec, Sess.entry, Sess.rec, List.map_map]
+    rfl
+  rw [ht]
+  rfl
+
+end Conn
+
 end TLX.Lemmas.TagNat
